@@ -264,4 +264,53 @@ fold's rows when the fold's estimator has a decision function, the raw scores ot
 def foldSpecDF (thr : Rat) (df : Bool) (xs : List (Rat × Bool)) : Except CalErr (List XR) :=
   if df then calibrate true thr xs else Except.ok (xs.map (fun x => XR.fin x.1))
 
+/-! ## Re-scaling a fold model's output (spec transformation, second audit pass)
+
+A fold's estimator is only determined up to a positive affine map of its decision function
+(an SVM's margin scale and intercept differ from fold to fold); "comparable across folds"
+means the returned scores do not depend on that choice.  These functions describe the
+transformation; nothing in the code corresponds to them. -/
+
+/-- the positive affine map `s ↦ a·s + b` of a raw score -/
+def rescale (a b s : Rat) : Rat := a * s + b
+
+/-- every score of one calibration input re-scaled (targets unchanged) -/
+def rescaleRows (a b : Rat) (xs : List (Rat × Bool)) : List (Rat × Bool) :=
+  xs.map (fun x => (rescale a b x.1, x.2))
+
+/-- one row of `_predict` with the output of *its fold's* model re-scaled by that fold's
+`(A f, B f)`; fold and target flag unchanged -/
+def rescaleRow (A B : Nat → Rat) (r : FRow) : FRow :=
+  { fold := r.fold, raw := rescale (A r.fold) (B r.fold) r.raw, target := r.target }
+
+/-- all rows, every fold model with its own scale and offset -/
+def rescaleFolds (A B : Nat → Rat) (rows : List FRow) : List FRow := rows.map (rescaleRow A B)
+
+/-! ## The order of the fold models  (mokapot/brew.py:194-195, second audit pass)
+
+`_predict` pairs `models[f]` with the rows whose fold number is `f` and asks `models[f]` for its
+`decision_function`.  `models` is not the list the caller passed: `brew` sorts the (pre-trained
+or freshly fitted) models by their `fold` attribute first.  A model is represented by
+`(fold attribute, exposes decision_function)`. -/
+
+/-- insert into a list sorted by the fold attribute, in front of entries with the same attribute -/
+def insertByFold (m : Nat × Bool) : List (Nat × Bool) → List (Nat × Bool)
+  | [] => [m]
+  | x :: l => if m.1 ≤ x.1 then m :: x :: l else x :: insertByFold m l
+
+/-- `fitted.sort(key=lambda x: x[0].fold)`: stable (equal attributes keep the order of the list).
+src: mokapot/brew.py:194 -/
+def sortByFold : List (Nat × Bool) → List (Nat × Bool)
+  | [] => []
+  | m :: l => insertByFold m (sortByFold l)
+
+/-- the flags `_predict` sees, fold by fold: `models, resets = zip(*fitted)` after the sort.
+src: mokapot/brew.py:194-195, 462-464 -/
+def gateFlags (models : List (Nat × Bool)) : List Bool := (sortByFold models).map (fun m => m.2)
+
+/-- `_predict` as `brew` calls it with the models in the order the caller listed them.
+src: mokapot/brew.py:194-195, 243-251 -/
+def predictModels (c : Nat) (models : List (Nat × Bool)) (thr : Rat) (rows : List FRow) : Except CalErr (List XR) :=
+  predictFoldsDF c (gateFlags models) thr rows
+
 end Mk.Calibrate
